@@ -171,9 +171,7 @@ def t_sleep_action(it, is_async):
         it.path.ghost["now"] = g["now"]
         attempt = fint("attempt")
         w.attempt = attempt
-        ctx_ci = tree.cls("redress.strategies:BackoffContext")
-        ctx = Obj(ctx_ci, {"attempt": attempt, "classification": None, "prev_sleep_s": None, "remaining_s": None,
-                           "cause": "exception"}, frozen=True, ident=z3.Int(fresh_name("ctx")))
+        ctx = sv.fresh_ctx(it, attempt)
         sleep_s = freal("sleep_s")
         dec_ci = tree.cls("redress.policy.state:_RetryDecision")
         decision = Obj(dec_ci, {"action": "retry", "sleep_s": sleep_s, "context": ctx}, frozen=True)
